@@ -39,6 +39,9 @@ func count(o *Outcome, which string) {
 	if o.ViaGRPC {
 		s.Class("via-grpc-handler")
 	}
+	if o.Padded {
+		s.Class("public-key-with-trailing-bytes")
+	}
 	s.ClassN("requests", o.Requests)
 	s.ClassN("released-signatures", o.Released)
 	s.ClassN("conflicting-attestation-requests", o.ConflictsAtt)
